@@ -15,6 +15,7 @@
 -/
 import NdnVerif.C19.LemmasRouter
 import NdnVerif.C19.LemmasLog
+import NdnVerif.Gen.C19Locks
 namespace Ndn.C19
 open Spec (Routes rget replay)
 
@@ -26,6 +27,15 @@ theorem consts_are_protocol : inf = 16 ∧ Ndn.Gen.C19.fetchGap = 100 ∧ Ndn.Ge
     command the installer emits is ever dropped on the way to the forwarder — the assumption under which the
     replay of the EMITTED stream (theorems below) is the forwarder's route table. -/
 theorem exec_never_drops_commands : Ndn.Gen.C19.execSendBlocks = true := rfl
+
+/-- The router and its prefix-table sync group never take their two mutexes in opposite orders (regenerated from
+    std/sync/svs.go and dv/dv/readvertise.go): an announcement holds `Router.mutex` while it calls into SvSync
+    (`IncrSeqNo` takes `SvSync.mutex`), so SvSync must not hold its mutex while it calls the router's update callback
+    (`onPfxSyncUpdate` takes `Router.mutex`). With both orders present an announcement that overlaps an incoming
+    prefix-sync update dead-locks the router for good — no operation is published, no table or route is ever
+    updated again (F-19b) — and every theorem below, which treats handlers as atomic steps that terminate, is void. -/
+theorem no_lock_order_cycle :
+    (Ndn.Gen.C19.svsUpdateUnderLock && Ndn.Gen.C19.announceUnderRouterLock) = false := by decide
 
 /-! ### (A) installed routes mirror the tables -/
 
